@@ -154,8 +154,8 @@ class Ctx:
 _W = {}
 
 
-def _winit(binary, voc, track, setup, timeout):
-    _W["drv"] = _drv.Drv(binary, voc, track_alloc=track, timeout=timeout)
+def _winit(binary, voc, track, setup, timeout, cmd_timeout=10):
+    _W["drv"] = _drv.Drv(binary, voc, track_alloc=track, timeout=timeout, cmd_timeout=cmd_timeout)
     for c in setup:
         _W["drv"].setup(c)
     import atexit
@@ -185,12 +185,12 @@ def chunks(it, n):
         yield c
 
 
-def pmap(ctx, fn, chunk_iter, binary, voc="core", track=False, setup=(), extra=None, procs=16, timeout=20.0):
+def pmap(ctx, fn, chunk_iter, binary, voc="core", track=False, setup=(), extra=None, procs=16, timeout=20.0, cmd_timeout=10):
     if len(ctx.violations) >= ctx.max_violations:
         return
     """Run fn(drv, chunk, extra) -> dict over chunks on a pool; yields results as they finish.
     Stops feeding when the context deadline expires (marks ctx incomplete)."""
-    pool = multiprocessing.Pool(procs, _winit, (binary, voc, track, list(setup), timeout))
+    pool = multiprocessing.Pool(procs, _winit, (binary, voc, track, list(setup), timeout, cmd_timeout))
     try:
         def feed():
             for c in chunk_iter:
